@@ -463,7 +463,7 @@ func (c18) Exec(c *sim.Case, env *Env) []sim.Violation {
 	// ---- the result survives a restart like any document (C03's listed losses excepted: compare texts only)
 	if rendered != nil {
 		if d2, err := w.OpenBytes(b1, int(c.OrderSeed%3)); err == nil && d2 != nil && d2.Body != nil {
-			if docText(d2) != docText(rendered) {
+			if docText(d2) != xmlSafe(docText(rendered)) {
 				add("restart-of-result", "paragraph-texts", "the rendered document reads differently after save+open")
 			}
 		}
